@@ -665,22 +665,36 @@ Definition tuple_of (a : dtz) : Z * Z * Z * Z * Z :=
   (Date.d_year (nd_date (dz_utc a)), Date.d_ordinal (nd_date (dz_utc a)),
    Time.tsecs (nd_time (dz_utc a)), Time.tfrac (nd_time (dz_utc a)), dz_off a).
 
+(** [good dt n]: the NaiveDate value [dt] (packed word) is the day with number [n].  The facts
+    below are the part of C01 (calendar forms agree) this property rests on, for the years an
+    RFC 3339 string can name and one day around them. *)
+Record date_facts (good : Z -> Z -> Prop) : Prop := {
+  df_year : forall dt n, good dt n -> Date.d_year dt = year_of_dn n;
+  df_ordinal : forall dt n, good dt n -> Date.d_ordinal dt = ordinal_of_dn n;
+  df_month : forall dt n, good dt n -> DAY_LO <= n <= DAY_HI ->
+    Date.d_month dt = Val (fst (md_of_ordinal (is_leap (year_of_dn n)) (ordinal_of_dn n)));
+  df_day : forall dt n, good dt n -> DAY_LO <= n <= DAY_HI ->
+    Date.d_day dt = Val (snd (md_of_ordinal (is_leap (year_of_dn n)) (ordinal_of_dn n)));
+  df_ymd_some : forall y m d, 0 <= y <= 9999 -> 1 <= m <= 12 -> 1 <= d <= 31 -> valid_ymd y m d = true ->
+    exists dt, Date.from_ymd_opt y m d = Val (Some dt) /\ good dt (dn_of_ymd y m d);
+  df_ymd_none : forall y m d, 0 <= y <= 9999 -> 1 <= m <= 12 -> 1 <= d <= 31 -> valid_ymd y m d = false ->
+    Date.from_ymd_opt y m d = Val None;
+  df_ndce : forall dt n, good dt n -> DAY_LO <= n <= DAY_HI -> Date.num_days_from_ce dt = Val n;
+  df_pred : forall dt n, good dt n -> DAY_LO < n <= DAY_HI ->
+    exists dt', Date.pred_opt dt = Val (Some dt') /\ good dt' (n - 1);
+  df_succ : forall dt n, good dt n -> DAY_LO <= n < DAY_HI ->
+    exists dt', Date.succ_opt dt = Val (Some dt') /\ good dt' (n + 1) }.
+
 Section WithDateFacts.
-  (** [good dt n]: the NaiveDate value [dt] (packed word) is the day with number [n].  The facts
-      below are the part of C01 (calendar forms agree) this property rests on, for the years an
-      RFC 3339 string can name and one day around them. *)
   Variable good : Z -> Z -> Prop.
-  Hypothesis good_year : forall dt n, good dt n -> Date.d_year dt = year_of_dn n.
-  Hypothesis good_ordinal : forall dt n, good dt n -> Date.d_ordinal dt = ordinal_of_dn n.
-  Hypothesis ymd_some : forall y m d, 0 <= y <= 9999 -> 1 <= m <= 12 -> 1 <= d <= 31 -> valid_ymd y m d = true ->
-    exists dt, Date.from_ymd_opt y m d = Val (Some dt) /\ good dt (dn_of_ymd y m d).
-  Hypothesis ymd_none : forall y m d, 0 <= y <= 9999 -> 1 <= m <= 12 -> 1 <= d <= 31 -> valid_ymd y m d = false ->
-    Date.from_ymd_opt y m d = Val None.
-  Hypothesis good_ndce : forall dt n, good dt n -> DAY_LO <= n <= DAY_HI -> Date.num_days_from_ce dt = Val n.
-  Hypothesis good_pred : forall dt n, good dt n -> DAY_LO < n <= DAY_HI ->
-    exists dt', Date.pred_opt dt = Val (Some dt') /\ good dt' (n - 1).
-  Hypothesis good_succ : forall dt n, good dt n -> DAY_LO <= n < DAY_HI ->
-    exists dt', Date.succ_opt dt = Val (Some dt') /\ good dt' (n + 1).
+  Hypothesis DF : date_facts good.
+  Let good_year := df_year good DF.
+  Let good_ordinal := df_ordinal good DF.
+  Let ymd_some := df_ymd_some good DF.
+  Let ymd_none := df_ymd_none good DF.
+  Let good_ndce := df_ndce good DF.
+  Let good_pred := df_pred good DF.
+  Let good_succ := df_succ good DF.
 
   Lemma to_datetime_ok f : wf f = true -> valid_nodate f = true ->
     if valid_ymd (f_year f) (f_month f) (f_day f)
